@@ -14,7 +14,7 @@ import (
 
 func init() {
 	register(&Property{
-		ID:  "C06",
+		ID:  "C06", Technique: "interprocedural length-provenance dataflow over go/ssa for every decoder input; use-after-Put and hand-over path rules",
 		Run: runC06,
 		Explain: an.Explanation{
 			Text: "Decides the structural clause of C06: every byte slice that reaches the DNS decoder " +
